@@ -250,6 +250,19 @@ def _run_case(mod, case, ctx, res):
     except Violation as v:
         _ARMED[0] = False
         return v
+    except Exception as e:
+        _ARMED[0] = False
+        # an exception that was raised inside the library under test, reached through a call the property module did not wrap in
+        # ctx.lib(): the library's doing (a violation of "handles the input"), not a harness error.  Exceptions raised in harness
+        # code proper still propagate (exit 2).
+        import traceback
+        frames = traceback.extract_tb(e.__traceback__)
+        lib = os.path.join(os.path.realpath(REPO_DIR), 'svgpathtools')
+        inner = [f for f in frames if os.path.realpath(f.filename).startswith(lib)]
+        if not inner or isinstance(e, (RuntimeError,)) and 'harness' in str(e):
+            raise
+        return Violation('%s/raises/%s/%s' % (ctx.prop_id, type(e).__name__, inner[-1].name),
+                         'library call raised %s: %s (in %s, line %d)' % (type(e).__name__, str(e)[:200], inner[-1].name, inner[-1].lineno))
     finally:
         _disarm()
 
